@@ -1,6 +1,7 @@
 ------------------------------- MODULE Cells -------------------------------
 (* SHARED module (C13; extended by Segments, Wrap, TextOps, Measure ...).  No constants, no
-   variables: everything is an operator so that it can be EXTENDed or INSTANCEd freely.
+   variables: everything is an operator so that it can be EXTENDed or INSTANCEd freely (a module
+   that already defines Char / Space / Min2 / Flatten / FirstBad uses  C == INSTANCE Cells).
 
    A *character* is a record [w, id]: w \in 0..2 is its terminal cell width, id its identity
    (a code point in trace validation, a position-derived number in model checking).  A *string*
